@@ -144,6 +144,7 @@ Out(c, tun) == Detect(role, win, tun, mem, c)
 
 Step(c, tun) ==
     LET o == Out(c, tun) IN
+    /\ n < MaxChunks
     /\ mem' = o.mem
     /\ seen' = IF o.fired /\ o.remembered THEN Append(seen, IdKey(role, c.toks[LastOcc(c.toks)])) ELSE seen
     /\ n' = n + 1
@@ -155,9 +156,10 @@ FireRemember(c, tun) == Out(c, tun).fired /\ Out(c, tun).remembered /\ ~Out(c, t
 FirePrune(c, tun)    == Out(c, tun).fired /\ Out(c, tun).pruned /\ Step(c, tun)
 
 Next ==
-    /\ n < MaxChunks
-    /\ \E c \in Chunks, tun \in BOOLEAN :
-          Ignore(c, tun) \/ Fire(c, tun) \/ FireRemember(c, tun) \/ FirePrune(c, tun)
+    \/ \E c \in Chunks, tun \in BOOLEAN : Ignore(c, tun)
+    \/ \E c \in Chunks, tun \in BOOLEAN : Fire(c, tun)
+    \/ \E c \in Chunks, tun \in BOOLEAN : FireRemember(c, tun)
+    \/ \E c \in Chunks, tun \in BOOLEAN : FirePrune(c, tun)
 
 Spec == Init /\ [][Next]_vars
 
